@@ -125,6 +125,9 @@ Fixpoint ords_from (l:list Z) (i:Z) : bool :=
 Definition lfn_complete (p:list lfnslot) : bool := ords_from (map l_ord (sort_asc p)) 1.
 Definition lfn_chk_ok (p:list lfnslot) (name:list Z) : bool :=
   forallb (fun s => l_chk s =? Gen.checksum name) p.
+Definition lfnslot_eqb (a b:lfnslot) : bool :=
+  (l_ord a =? l_ord b) && list_eqb (l_name1 a) (l_name1 b) && (l_attr a =? l_attr b) && (l_type a =? l_type b) &&
+  (l_chk a =? l_chk b) && list_eqb (l_name2 a) (l_name2 b) && (l_clus a =? l_clus b) && list_eqb (l_name3 a) (l_name3 b).
 Inductive scan_res := ScanStop | ScanGo.
 (** one address range (a cluster, or the fixed root region), slot by slot.
     Returns (entries so far, pending long-name slots, whether the end mark was met) *)
@@ -145,6 +148,7 @@ Fixpoint scan_slots (fuel:nat) (b:list Z) (pend:list lfnslot) (acc:list dirent)
       else if Gen.is_lfn_entry first (nthZ slot 11) then
         let s := parse_lfnslot slot in
         if negb (l_clus s =? 0) then Err EPYFAT
+        else if existsb (lfnslot_eqb s) pend then scan_slots f rest pend acc   (* the same slot once more: ignored *)
         else if existsb (fun x => l_ord x =? l_ord s) pend then Err EPYFAT
         else scan_slots f rest (pend ++ [s]) acc
       else
